@@ -104,6 +104,18 @@ where
         Ok(return_buffer)
     }
 
+    /// Ids currently held by the effect registry (test-only instrumentation).
+    #[cfg(feature = "verif")]
+    pub fn verif_registry(&self) -> Vec<(u32, &'static str)> {
+        self.inner.verif_registry()
+    }
+
+    /// The wrapped core (test-only instrumentation).
+    #[cfg(feature = "verif")]
+    pub fn verif_core(&self) -> &Core<A> {
+        self.inner.verif_core()
+    }
+
     /// Get the current state of the app's view model (serialized).
     pub fn view(&self) -> Result<Vec<u8>, BridgeError> {
         let options = Self::bincode_options();
@@ -228,6 +240,18 @@ where
             .map_err(BridgeError::SerializeRequests)?;
 
         Ok(())
+    }
+
+    /// Ids currently held by the effect registry (test-only instrumentation).
+    #[cfg(feature = "verif")]
+    pub fn verif_registry(&self) -> Vec<(u32, &'static str)> {
+        self.registry.verif_entries()
+    }
+
+    /// The wrapped core (test-only instrumentation).
+    #[cfg(feature = "verif")]
+    pub fn verif_core(&self) -> &Core<A> {
+        &self.core
     }
 
     /// Get the current state of the app's view model (serialized).
